@@ -190,6 +190,26 @@ func run(tier string, shard, nsh int, res *ev.Result) {
 				}
 			}
 		}
+		// transpositions and rotations (a trailer sent high byte first, two swapped data bytes, a frame shifted by one)
+		for i := 0; i+1 < n; i++ {
+			if good[i] != good[i+1] {
+				f := append([]byte(nil), good...)
+				f[i], f[i+1] = f[i+1], f[i]
+				try("transposition", f)
+			}
+		}
+		if n >= 4 {
+			f := append(append([]byte(nil), good[1:]...), good[0])
+			try("rotation", f)
+			f = append([]byte{good[n-1]}, good[:n-1]...)
+			try("rotation", f)
+			f = append([]byte(nil), good...)
+			f[n-2], f[n-1] = ^f[n-2], ^f[n-1]
+			try("trailer-inverted", f)
+			f = append([]byte(nil), good...)
+			f[n-2], f[n-1] = 0, 0
+			try("trailer-zero", f)
+		}
 		for k := 1; k < n; k++ {
 			try("truncation", append([]byte(nil), good[:k]...))
 		}
@@ -207,7 +227,7 @@ func run(tier string, shard, nsh int, res *ev.Result) {
 	res.DistinctAdd("nontrivial", lc.nontrivial)
 	if shard == 0 {
 		res.Axis("RTU reply shape", "10 functions (replies <= 40 bytes) + exception replies, rtu-net and serial clients", int64(len(scs)))
-		res.Axis("corruption", "every single-bit flip; every single-byte substitution; two-byte B8xB8 on adjacent and header/trailer pairs; every truncation; extensions by 1..3 bytes", 0)
+		res.Axis("corruption", "every single-bit flip; every single-byte substitution; two-byte B8xB8 on adjacent and header/trailer pairs; every transposition of adjacent bytes, rotations, inverted / zero trailer; every truncation; extensions by 1..3 bytes", 0)
 		res.Axis("delivery", map[bool]string{true: "whole + every single cut", false: "whole + cuts at {4,5,6,n-3..n-1,expected}"}[thorough], 0)
 		res.Sample(mk(scs[0], "bit-flip", []byte{0x11, 0x81, 0x01}, 5))
 	}
